@@ -9,6 +9,7 @@ import (
 	"math"
 
 	hdf5 "github.com/scigolib/hdf5"
+	"github.com/scigolib/hdf5/internal/core"
 )
 
 // DSpec describes a dataset to create.
@@ -22,6 +23,33 @@ type DSpec struct {
 	Dims      []uint64 `json:"dims"`
 	Chunk     []uint64 `json:"chunk,omitempty"`    // nil = contiguous
 	MaxDims   []uint64 `json:"max_dims,omitempty"` // nil = not resizable; hdf5.Unlimited allowed
+	Filters   []string `json:"filters,omitempty"`  // chunked only: "gzip:<level>" "shuffle" "fletcher" in option order
+}
+
+// compound layouts: "cmp:num" = {a int32 @0, b float64 @4, c int64 @12}; "cmp:str" = {x float32 @0, s string[6] @4}
+type cmpField struct {
+	name  string
+	class core.DatatypeClass
+	size  uint32
+}
+
+var cmpLayouts = map[string][]cmpField{
+	"cmp:num": {{"a", core.DatatypeFixed, 4}, {"b", core.DatatypeFloat, 8}, {"c", core.DatatypeFixed, 8}},
+	"cmp:str": {{"x", core.DatatypeFloat, 4}, {"s", core.DatatypeString, 6}},
+}
+
+func (d DSpec) compoundType() (*core.DatatypeMessage, error) {
+	var fields []core.CompoundFieldDef
+	off := uint32(0)
+	for _, f := range cmpLayouts[d.Type] {
+		t, err := core.CreateBasicDatatypeMessage(f.class, f.size)
+		if err != nil {
+			return nil, err
+		}
+		fields = append(fields, core.CompoundFieldDef{Name: f.name, Offset: off, Type: t})
+		off += f.size
+	}
+	return core.CreateCompoundTypeFromFields(fields)
 }
 
 var baseTypes = map[string]struct {
@@ -49,6 +77,10 @@ func (d DSpec) Base() (kind, base string) {
 		return "enum", d.Type[5:]
 	case d.Type == "str" || d.Type == "objref" || d.Type == "regref" || d.Type == "opaque":
 		return d.Type, ""
+	case d.Type == "cmp:num" || d.Type == "cmp:str":
+		return "cmp", ""
+	case d.Type == "vl:str" || d.Type == "vl:i32":
+		return "vl", ""
 	}
 	return "num", d.Type
 }
@@ -70,6 +102,9 @@ func (d DSpec) Valid() bool {
 		return d.StrSize > 0
 	case "opaque":
 		return d.OpaqueLen > 0 && d.OpaqueTag != ""
+	}
+	if len(d.Filters) > 0 && d.Chunk == nil {
+		return false
 	}
 	return true
 }
@@ -94,6 +129,14 @@ func (d DSpec) ElemSize() int {
 		return 12
 	case "opaque":
 		return d.OpaqueLen
+	case "cmp":
+		n := 0
+		for _, f := range cmpLayouts[d.Type] {
+			n += int(f.size)
+		}
+		return n
+	case "vl":
+		return 16
 	}
 	return 0
 }
@@ -114,6 +157,10 @@ func (d DSpec) Class() int {
 		return 7
 	case "opaque":
 		return 5
+	case "cmp":
+		return 6
+	case "vl":
+		return 9
 	}
 	return -1
 }
@@ -156,6 +203,11 @@ func (d DSpec) Create(fw *hdf5.FileWriter, path string) (*hdf5.DatasetWriter, er
 	case "opaque":
 		dt = hdf5.Opaque
 		opts = append(opts, hdf5.WithOpaqueTag(d.OpaqueTag, uint32(d.OpaqueLen)))
+	case "vl":
+		dt = hdf5.VLenString
+		if d.Type == "vl:i32" {
+			dt = hdf5.VLenInt32
+		}
 	default:
 		dt = hdf5.Datatype(9999)
 	}
@@ -164,6 +216,25 @@ func (d DSpec) Create(fw *hdf5.FileWriter, path string) (*hdf5.DatasetWriter, er
 	}
 	if d.MaxDims != nil {
 		opts = append(opts, hdf5.WithMaxDims(d.MaxDims))
+	}
+	for _, f := range d.Filters {
+		switch {
+		case len(f) > 5 && f[:5] == "gzip:":
+			lvl := 6
+			fmt.Sscanf(f[5:], "%d", &lvl)
+			opts = append(opts, hdf5.WithGZIPCompression(lvl))
+		case f == "shuffle":
+			opts = append(opts, hdf5.WithShuffle())
+		case f == "fletcher":
+			opts = append(opts, hdf5.WithFletcher32())
+		}
+	}
+	if kind == "cmp" {
+		ct, err := d.compoundType()
+		if err != nil {
+			return nil, err
+		}
+		return fw.CreateCompoundDataset(path, ct, d.Dims, opts...)
 	}
 	return fw.CreateDataset(path, dt, d.Dims, opts...)
 }
@@ -334,6 +405,28 @@ func (d DSpec) Data(dims []uint64, seed, mode int) (raw []byte, goVal any) {
 			raw[i] = byte(mix(seed, i))
 		}
 		goVal = append([]byte{}, raw...)
+	case "cmp":
+		off := 0
+		for i := 0; i < n; i++ {
+			for fi, f := range cmpLayouts[d.Type] {
+				v := rawBits(seed, i*7+fi, int(f.size), mode)
+				switch {
+				case f.class == core.DatatypeString:
+					str := fmt.Sprintf("s%d", (seed+i)%1000)
+					copy(raw[off:off+int(f.size)-1], str) // keep a terminating NUL
+				case f.class == core.DatatypeFloat && mode == ModeSeq && f.size == 8:
+					binary.LittleEndian.PutUint64(raw[off:], math.Float64bits(float64(v)))
+				case f.class == core.DatatypeFloat && mode == ModeSeq:
+					binary.LittleEndian.PutUint32(raw[off:], math.Float32bits(float32(v)))
+				case f.size == 4:
+					binary.LittleEndian.PutUint32(raw[off:], uint32(v))
+				default:
+					binary.LittleEndian.PutUint64(raw[off:], v)
+				}
+				off += int(f.size)
+			}
+		}
+		goVal = nil
 	default: // regref: WriteRaw only
 		for i := range raw {
 			raw[i] = byte(mix(seed, i) >> 5)
@@ -395,4 +488,81 @@ func (d DSpec) ExpectedStrings(raw []byte) ([]string, bool) {
 		out[i] = string(b)
 	}
 	return out, true
+}
+
+// ExpectedCompound renders what ReadCompound must return (obs.Render of each element's field map).
+func (d DSpec) ExpectedCompound(raw []byte, render func(any) string) ([]string, bool) {
+	fields, ok := cmpLayouts[d.Type]
+	if !ok {
+		return nil, false
+	}
+	es := d.ElemSize()
+	n := len(raw) / es
+	out := make([]string, n)
+	for i := 0; i < n; i++ {
+		m := map[string]interface{}{}
+		off := i * es
+		for _, f := range fields {
+			b := raw[off : off+int(f.size)]
+			switch {
+			case f.class == core.DatatypeString:
+				s := b
+				for j, c := range s {
+					if c == 0 {
+						s = s[:j]
+						break
+					}
+				}
+				m[f.name] = string(s)
+			case f.class == core.DatatypeFloat && f.size == 8:
+				m[f.name] = math.Float64frombits(binary.LittleEndian.Uint64(b))
+			case f.class == core.DatatypeFloat:
+				m[f.name] = math.Float32frombits(binary.LittleEndian.Uint32(b))
+			case f.size == 4:
+				m[f.name] = int32(binary.LittleEndian.Uint32(b))
+			default:
+				m[f.name] = int64(binary.LittleEndian.Uint64(b))
+			}
+			off += int(f.size)
+		}
+		out[i] = render(m)
+	}
+	return out, true
+}
+
+// VLData builds the Go value for a variable-length dataset write and the expected bytes of every element.
+// Element lengths are mostly small, with some beyond the 4 KiB default heap collection.
+func (d DSpec) VLData(dims []uint64, seed int) (goVal any, elems [][]byte) {
+	n := NumElems(dims)
+	elems = make([][]byte, n)
+	lens := []int{0, 1, 3, 8, 17, 40, 200, 4100, 9000}
+	for i := range elems {
+		l := lens[mix(seed, i)%uint64(len(lens))]
+		if mix(seed, i+999)%4 != 0 && l > 200 {
+			l = int(mix(seed, i) % 64) // large elements are the minority
+		}
+		if d.Type == "vl:i32" {
+			l = l / 4 * 4
+		}
+		b := make([]byte, l)
+		for j := range b {
+			b[j] = byte(mix(seed, i*977+j)>>7) | 1 // no NUL bytes: the string form must survive
+		}
+		elems[i] = b
+	}
+	if d.Type == "vl:i32" {
+		v := make([][]int32, n)
+		for i, e := range elems {
+			v[i] = make([]int32, len(e)/4)
+			for j := range v[i] {
+				v[i][j] = int32(binary.LittleEndian.Uint32(e[j*4:]))
+			}
+		}
+		return v, elems
+	}
+	v := make([]string, n)
+	for i, e := range elems {
+		v[i] = string(e)
+	}
+	return v, elems
 }
